@@ -190,6 +190,23 @@ def gen_rect(tier, rng):
             j = rng.choice([0, 1, 4, 5])
             v[j + 2] = min(U32 - 1, U32 - v[j]) if rng.below(2) else rng.choice(BOUND)
         qs.append(Q("rect_i %d %d %d %d %d %d %d %d" % tuple(v), tag='boundary values'))
+    # sizes and origins with many factors of two (and their neighbours): products / sums that wrap exactly
+    P2 = [0, 1, 2, 3]
+    for e in (8, 12, 15, 16, 17, 20, 24, 30, 31):
+        P2 += [(1 << e) - 1, 1 << e, (1 << e) + 1, 3 << (e - 1)]
+    P2 = sorted(set(v for v in P2 if v < U32))
+    for k in range(1500 if tier == 'quick' else 20000):
+        def pw():
+            x = rng.choice(P2)
+            cand = [w for w in P2 if x + w < U32]
+            return x, rng.choice(cand)
+        ax, aw = pw(); ay, ah = pw(); bx, bw = pw(); by, bh = pw()
+        if rng.below(2):
+            bx, by = ax + rng.choice([0, 1, 5]) if ax + 5 + bw < U32 else bx, ay + rng.choice([0, 1, 7]) if ay + 7 + bh < U32 else by
+        qs.append(Q("rect_i %d %d %d %d %d %d %d %d" % (ax, ay, aw, ah, bx, by, bw, bh), tag='powers of two'))
+    for k in range(300 if tier == 'quick' else 3000):
+        x = rng.choice(P2); y = rng.choice(P2)
+        qs.append(Q("rect_s %d %d %d %d %d %d" % (x, y, rng.choice(P2), rng.choice(P2), rng.choice([0, x, x // 2]), rng.choice([0, y, y // 3])), tag='sub_offset powers of two'))
     for k in range(nsub):
         m = rng.below(4)
         if m == 0:
@@ -349,6 +366,21 @@ def gen_color(tier, rng):
                 for dg in (-1, 0, 1):
                     for db in (-1, 0, 1):
                         pts.add((clamp(m[0] + dr), clamp(m[1] + dg), clamp(m[2] + db)))
+    # the neighbourhood of every bisector plane between two palette colours: for PRNG (a, b) in two channels, the value
+    # of the third channel where the two squared distances are closest, and its neighbours (distance differences of 1,
+    # 2, ... decide the nearest colour there)
+    def d2(p, q):
+        return sum((p[k] - q[k]) ** 2 for k in range(3))
+    for i in range(len(pal)):
+        for j in range(i + 1, len(pal)):
+            for ch in range(3):
+                for _ in range(14 if tier == 'quick' else 120):
+                    a, b2 = rng.below(256), rng.below(256)
+                    def pt(v):
+                        c = [a, b2]; c.insert(ch, v); return tuple(c)
+                    best = min(range(256), key=lambda v: abs(d2(pt(v), pal[i]) - d2(pt(v), pal[j])))
+                    for dv in (-2, -1, 0, 1, 2):
+                        pts.add(pt(clamp(best + dv)))
     # the black/white threshold of Color
     for k in range(400):
         s = 380 + rng.below(6)
